@@ -181,3 +181,58 @@ Definition route_priority (supplied tf_table_cached concat_cached : bool) : rout
   if supplied then RSupplied else if tf_table_cached then RRegistered else if concat_cached then RDistinct else RNone.
 Definition route_of {V : Type} (k : route_kind) (tbl : list (V * Q)) : tf_route V :=
   match k with RSupplied => Supplied V | RRegistered => Registered V tbl | RDistinct => DistinctFromConcat V | RNone => NoSource V end.
+
+(* ------------------------------------------------------------------------------------ *)
+(* SQL-shaped model of ONE entry point's scoring pipeline: the skeletons that translators/c10_sql.py
+   extracts from the SQL text the entry point really executed (comparison-vector stage, match-weight
+   parts stage, predict stage), evaluated stage by stage like the CTE pipeline does. *)
+Record pipeline := {
+  pl_gammas : list nx;            (* CASE ... END AS gamma_c, per comparison *)
+  pl_bfs : list nx;               (* CASE ... END AS bf_c *)
+  pl_tfs : list (option nx);      (* CASE ... END AS bf_tf_adj_c (None: the comparison has no such column) *)
+  pl_weight : nx;                 (* argument of log2 in match_weight *)
+  pl_prob : nx                    (* match_probability *)
+}.
+Definition onx_eqb (a b : option nx) : bool :=
+  match a, b with Some x, Some y => nx_eqb x y | None, None => true | _, _ => false end.
+Fixpoint all2b {A B} (f : A -> B -> bool) (l : list A) (l' : list B) : bool :=
+  match l, l' with [], [] => true | x :: t, y :: t' => f x y && all2b f t t' | _, _ => false end.
+Definition pipeline_eqb (a b : pipeline) : bool :=
+  all2b nx_eqb (pl_gammas a) (pl_gammas b) && all2b nx_eqb (pl_bfs a) (pl_bfs b) &&
+  all2b onx_eqb (pl_tfs a) (pl_tfs b) && nx_eqb (pl_weight a) (pl_weight b) && nx_eqb (pl_prob a) (pl_prob b).
+
+Definition no_conds : nat -> tv := fun _ => U.
+(* the columns visible to each stage *)
+Definition env_tf (tfs : nat -> option Q * option Q) : colref -> option xq :=
+  fun c => match c with
+           | CTfL k => option_map Fin (fst (tfs k))
+           | CTfR k => option_map Fin (snd (tfs k))
+           | _ => None
+           end.
+Definition env_with_gammas (env : colref -> option xq) (gs : list (option xq)) : colref -> option xq :=
+  fun c => match c with CGamma i => nth i gs None | _ => env c end.
+Definition env_with_parts (env : colref -> option xq) (bs ts : list (option xq)) : colref -> option xq :=
+  fun c => match c with CBf i => nth i bs None | CTfAdj i => nth i ts None | _ => env c end.
+
+Record pl_out := { o_gammas : list (option xq); o_bfs : list (option xq); o_tfs : list (option xq);
+                   o_weight_arg : option xq; o_prob : option xq }.
+
+Definition run_pipeline (pow : Q -> Q -> Q) (pl : pipeline) (tfs : nat -> option Q * option Q)
+           (outcs : list (nat -> tv)) : pl_out :=
+  let e0 := env_tf tfs in
+  let gs := map (fun go => neval pow e0 (snd go) (fst go)) (combine (pl_gammas pl) outcs) in
+  let e1 := env_with_gammas e0 gs in
+  let bs := map (neval pow e1 no_conds) (pl_bfs pl) in
+  let ts := map (fun o => match o with Some e => neval pow e1 no_conds e | None => None end) (pl_tfs pl) in
+  let e2 := env_with_parts e1 bs ts in
+  {| o_gammas := gs; o_bfs := bs; o_tfs := ts;
+     o_weight_arg := neval pow e2 no_conds (pl_weight pl); o_prob := neval pow e2 no_conds (pl_prob pl) |}.
+
+(* the pipeline the Scoring model expects for a model (prior, comparisons) *)
+Definition model_pipeline (p : Q) (cmps : list (list level)) : pipeline :=
+  {| pl_gammas := map (fun ls => gen_gamma_case ls (assign_cvv ls)) cmps;
+     pl_bfs := map (fun ic => gen_bf_case (fst ic) (snd ic)) (combine (seq 0 (length cmps)) cmps);
+     pl_tfs := map (fun ic => if has_tf (snd ic) then Some (gen_tf_case (fst ic) (snd ic)) else None)
+                   (combine (seq 0 (length cmps)) cmps);
+     pl_weight := gen_bf_expr p (term_cols cmps);
+     pl_prob := match gen_match_prob p (term_cols cmps) with Some e => e | None => NNull end |}.
